@@ -617,11 +617,11 @@ REQUIRED_LABELS = {t: ["reconnect", "reconnect-change", "path:plain",
 def stages(tier):
     return [EnumStage("single-start", single_starts, run_case,
                       exhaustive={"quick": True, "thorough": True},
-                      budget_s={"quick": 60, "thorough": 120}),
+                      budget_s={"quick": 180, "thorough": 120}),
             HypStage("histories", lambda t: cases(t), run_case, {"quick": 150, "thorough": 4000},
-                     budget_s={"quick": 90, "thorough": 900}),
+                     budget_s={"quick": 270, "thorough": 900}),
             EnumStage("reconnect", reconnect_cases, run_reconnect,
                       exhaustive={"quick": True, "thorough": True},
-                      budget_s={"quick": 60, "thorough": 120}),
+                      budget_s={"quick": 180, "thorough": 120}),
             HypStage("pin-generator", lambda t: rng_streams(t), run_generator,
-                     {"quick": 200, "thorough": 5000}, budget_s={"quick": 30, "thorough": 300})]
+                     {"quick": 200, "thorough": 5000}, budget_s={"quick": 90, "thorough": 300})]
